@@ -7,6 +7,7 @@ package main
 // schedules; it is a data-race detector, not the deciding step of any property.
 
 import (
+	"net/http"
 	"encoding/json"
 	"fmt"
 	"os"
@@ -56,7 +57,9 @@ func TestRace(t *testing.T) {
 				func() { st.Authenticate("u", "o"); st.Authenticate("v", "vpw"); st.List() },                      //nolint:errcheck
 				func() { st.Add("w", "x", false); st.SetAdmin("w", true); st.Remove("w") },                        //nolint:errcheck
 				func() { callback("u", "o", "s", "r", "/p", st); ldapHandler{store: st}.Bind("v@x", "vpw", nil) }, //nolint:errcheck
-				func() { login(mux, "root", "rootpw") },
+				// two logins at once: each caller gets the session of its own identity
+				func() { sessionIs(ev, mux, "root", "rootpw", true) },
+				func() { sessionIs(ev, mux, "v", "vpw", false) },
 				func() { st.Update("u", "o"); st.Check() }, //nolint:errcheck
 			}
 			for _, f := range scripts {
@@ -69,9 +72,29 @@ func TestRace(t *testing.T) {
 		ev.Distinct("mode=" + mode)
 	}
 	ev.Distinct(fmt.Sprint("rounds=", rounds))
-	ev.Rule = fmt.Sprintf("%d rounds x 6 concurrent client scripts x upgrade modes off/local against the plain (un-rewritten) agent with real hooks under the Go race detector; a race report is a violation (sampling pass, not the deciding step)", rounds)
-	ev.Sample(map[string]any{"scripts": "update+auth | auth+auth+list | add+set-admin+remove | sasl callback + ldap bind | api login | update+check"})
+	ev.Rule = fmt.Sprintf("%d rounds x 7 concurrent client scripts x upgrade modes off/local against the plain (un-rewritten) agent with real hooks under the Go race detector; a race report is a violation (sampling pass, not the deciding step)", rounds)
+	ev.Sample(map[string]any{"scripts": "update+auth | auth+auth+list | add+set-admin+remove | sasl callback + ldap bind | api login (admin) + identity probe | api login (user) + identity probe | update+check"})
 	ev.Finish()
+}
+
+// sessionIs logs in over the web API and probes the session it was handed: /api/list answers 200
+// exactly for an administrator's session, and a password update of the own account is allowed
+// for exactly that account's session.
+func sessionIs(ev *verifev.Run, mux http.Handler, user, pw string, admin bool) {
+	sess := login(mux, user, pw)
+	b, _ := json.Marshal(map[string]string{"session": sess})
+	code, body := post(mux, "/api/list", b, [2]string{})
+	if (code == 200) != admin {
+		ev.Violation("concurrent-login-got-foreign-session", fmt.Sprintf("session handed to %s (admin=%v): /api/list answers %d %s", user, admin, code, body), nil)
+	}
+	other := "v"
+	if user == "v" {
+		other = "root"
+	}
+	b, _ = json.Marshal(map[string]string{"session": sess, "username": other, "newpassword": ""})
+	if code, _ := post(mux, "/api/update", b, [2]string{}); !admin && code == 200 {
+		ev.Violation("concurrent-login-got-foreign-session", fmt.Sprintf("session handed to %s is accepted for an update of %s", user, other), nil)
+	}
 }
 
 // TestRaceC07: concurrent token issuance and checking on ONE session factory (the HTTP
